@@ -1,7 +1,7 @@
 """C17 - Text table dumps reload to the same tree sequence (structural clauses)."""
 from __future__ import annotations
 
-from . import lib_py, lib_newick, lib_module, lib_order, lib_schema
+from . import scopes, lib_py, lib_newick, lib_module, lib_order, lib_schema
 
 LEVEL = "other"
 EXPLANATION = ("Writer/reader column agreement between dump_text and the seven parse_* functions, header-driven token indexing, "
@@ -15,11 +15,13 @@ def run(ctx):
     lib_py.header_indexing(ctx, py)
     lib_py.text_metadata_symmetry(ctx, py)
     lib_py.optional_index_tests(ctx, py)
-    lib_newick.none_defaults(ctx, py, mods=("trees", "text_formats"))
+    ps, ms = scopes.py_scope("C17"), scopes.module_scope("C17")
+    lib_newick.none_defaults(ctx, py, mods=("trees", "text_formats"), only=ps)
     P = ctx.program()
-    lib_module.format_types(ctx, P)
-    lib_order.memcpy_alias(ctx, P)
+    lib_module.format_types(ctx, P, only=ms)
+    srt = lambda f: f.startswith("tsk_table_sorter_")
+    lib_order.memcpy_alias(ctx, P, funcs=srt)
     lib_order.bookmark_cursor(ctx, P)
     lib_order.comparators(ctx, P)
-    lib_schema.argname(ctx, P, tus=("tables",))
-    lib_py.unused_params(ctx, py, mods=("text_formats",))
+    lib_schema.argname(ctx, P, tus=("tables",), funcs=srt)
+    lib_py.unused_params(ctx, py, mods=("text_formats", "trees"), only=scopes.py_scope("C17"))
